@@ -26,6 +26,18 @@ CLAIMED = {
                 text='Differential: the token term produced by the real MIR equals the specification token written as an SMT term over the same ideal primitives (collision-free, so equality forces equal arguments at every primitive call), the specification token is decrypted/verified by the real MIR, the footer segment exists iff the footer is non-empty; le64 (summarised in the SMT runs) is checked bit-precisely on the compiled code by Kani for all 2^64 inputs.'),
     'C09': dict(engine=E2, cat=MC, ref='DESIGN.md 6 (C09)', technique=TECH, note=NOTE + ' Panic conditions of std calls as documented (range index, split_at, copy_from_slice, unwrap/expect, str slicing at non-char-boundaries).',
                 text='Every panic site (MIR assert terminators for overflow/bounds, panicking std contracts) reachable from the 8 core entry points with an ARBITRARY token string (segments case-split 1,2,3,4,>=5; decoded payload of any length) and from Key::<N>::try_from(&str) is shown unreachable by the solver; thorough repeats with overflow checks off (release semantics).'),
+    'C11': dict(engine=E2, cat=MC, ref='DESIGN.md 6 (C11/C12)', technique=TECH, note='Trusted: MIR dump; serde_json::Value as an algebraic datatype; time::OffsetDateTime::parse(&Rfc3339) as an uninterpreted partial function to (instant, offset), now_utc() an arbitrary instant; which strings `time` accepts is outside the claim.',
+                text='PasetoParser::default() is executed from its MIR (registering the real exp/nbf closures), then verify_claims runs on a symbolic payload: an accepting path forces exp to be absent/null or an RFC 3339 string whose instant is after the clock reading; a rejection inside the exp validator is justified by the value; the validator receives payload["exp"]. Any JSON value (numbers, arrays, objects, booleans, empty string) is inside the query.'),
+    'C12': dict(engine=E2, cat=MC, ref='DESIGN.md 6 (C11/C12)', technique=TECH, note='As C11.',
+                text='As C11 for the nbf validator with the comparison reversed.'),
+    'C13': dict(engine=E2, cat=MC, ref='DESIGN.md 6 (C13)', technique=TECH, note='Trusted: MIR dump; HashMap/HashSet as SMT arrays; claim = (key, JSON) with Serialize emitting {key: value}; time as in C11; core entry points summarised (C01-C09).',
+                text='Inductive over the PasetoBuilder state: default() (real MIR) yields exactly exp=now+1h, iat=nbf=now from one clock reading; set_claim keeps exp and stores the value; build() for each of the 8 protocols hands the core a payload that carries exp iff no-expiration was not acknowledged, and leaves claims/footer/assertion untouched (so a second build sees the same state).'),
+    'C15': dict(engine=E2, cat=MC, ref='DESIGN.md 6 (C15)', technique=TECH, note='Trusted: MIR dump; JSON datatype with Index = Null for missing; maps as arrays with enumerated keys (0-2 expected claims, 0-2 validators quick); core summarised.',
+                text='GenericParser::verify_claims from MIR on a symbolic parser (expected claims with symbolic distinct keys/values, validators) and symbolic payload: Ok iff every expected claim without validator is present (non-null) and equal; Missing only for an absent expected claim; a payload satisfying everything is accepted; the parser state is unchanged by a parse (history independence); all 8 GenericParser::parse and 8 PasetoParser::parse bodies hand token/key/footer/assertion to the matching core entry point.'),
+    'C16': dict(engine=E2, cat=MC, ref='DESIGN.md 6 (C16)', technique=TECH, note='As C15; user validators are uninterpreted predicates with a call log.',
+                text='On every accepting path each registered validator ran exactly once with (its key, payload[key]) and returned Ok; a validator error fails the parse; when the core rejects, no validator is called and the error is CipherError - for verify_claims and all 16 parse bodies.'),
+    'C17': dict(engine=E2, cat=MC, ref='DESIGN.md 6 (C17)', technique=TECH, note='Trusted: MIR dump; HashSet/HashMap as arrays; representation invariant with ghost supply counts (vf/props/c17.py).',
+                text='Inductive step from ANY PasetoBuilder state satisfying the invariant (duplicate flag <=> some key supplied twice, modulo the exp-after-acknowledgement latitude): set_claim and the acknowledgement preserve it; build() of all 8 protocols returns DuplicateTopLevelPayloadClaim(flagged key) iff the flag is set, without reaching the core, and leaves flag/key set unchanged (every later build fails too).'),
 }
 
 REASON_NOT_YET = 'check under construction in this round - not claimed until its command exists'
